@@ -176,9 +176,9 @@ func runC08(c *core.Ctx) *core.Violation {
 						first := int(l.StartOff - o0 - 1)
 						l.Conn.CutGraceful = finCut[linkNo]
 						if cutPos[linkNo] > first {
-							l.Conn.CutAfterTotal(l.Header + int64(cutPos[linkNo]-first))
+							l.Conn.CutAfterTotal(l.Base + l.Header + int64(cutPos[linkNo]-first))
 						} else {
-							l.Conn.CutAfterTotal(l.Header + 1)
+							l.Conn.CutAfterTotal(l.Base + l.Header + 1)
 						}
 						linkNo++
 						dialsAfterCut = 0
